@@ -66,6 +66,7 @@ func TestC08(t *testing.T) {
 	cfg := baseCfg()
 	cfg.PPlug = 85
 	cfg.PBurst = 55
+	cfg.PDot = 8
 	engine.CheckE1(t, "C08", cfg, func(c *engine.Case, w *engine.World) bool {
 		return (f(w, "add-unclean-or-absolute-spelling") > 0 || f(w, "add-through-symlink") > 0) &&
 			(f(w, "boundary-name-events") > 0 || f(w, "non-ascii-name-events") > 0) && f(w, "events-decoded-at-offset>0") > 0
